@@ -524,7 +524,7 @@ func (d *Doc) checkNodeTRS(no obj, k int, ms ModelSpec, add adder) {
 			}
 		}
 		if bad {
-			add("gltf.Writer.AddScene", clTRS, fmt.Sprintf("matrix/%s/model#%d", ms.TRS, k), "model %d: matrix %v, want %v", k, m, want)
+			add("gltf.Writer.AddScene", clTRS, fmt.Sprintf("matrix/%s/model#%d", trsClass(ms.TRS), k), "model %d: matrix %v, want %v", k, m, want)
 		}
 		return
 	}
@@ -534,7 +534,7 @@ func (d *Doc) checkNodeTRS(no obj, k int, ms ModelSpec, add adder) {
 		want []float64
 		def  []float64
 	}
-	t, r, s := modelT(k), modelR(k), modelS(k)
+	t, r, s := modelT(k, ms.TRS), modelR(k, ms.TRS), modelS(k, ms.TRS)
 	for _, c := range []comp{
 		{"translation", hasT(ms.TRS), t[:], []float64{0, 0, 0}},
 		{"rotation", hasR(ms.TRS), r[:], []float64{0, 0, 0, 1}},
@@ -553,7 +553,7 @@ func (d *Doc) checkNodeTRS(no obj, k int, ms ModelSpec, add adder) {
 			got = g
 		}
 		if eqBits(want, got) != -1 {
-			add("gltf.Writer.AddScene", clTRS, fmt.Sprintf("%s/%s/model#%d", c.key, ms.TRS, k), "model %d: node %s = %v, model has %v", k, c.key, no[c.key], want)
+			add("gltf.Writer.AddScene", clTRS, fmt.Sprintf("%s/%s/model#%d", c.key, trsClass(ms.TRS), k), "model %d: node %s = %v, model has %v", k, c.key, no[c.key], want)
 		}
 	}
 }
@@ -562,13 +562,13 @@ func (d *Doc) checkNodeTRS(no obj, k int, ms ModelSpec, add adder) {
 func composeTRS(k int, sel string) [16]float64 {
 	t, q, s := [3]float64{}, [4]float64{0, 0, 0, 1}, [3]float64{1, 1, 1}
 	if hasT(sel) {
-		t = modelT(k)
+		t = modelT(k, sel)
 	}
 	if hasR(sel) {
-		q = modelR(k)
+		q = modelR(k, sel)
 	}
 	if hasS(sel) {
-		s = modelS(k)
+		s = modelS(k, sel)
 	}
 	x, y, z, w := q[0], q[1], q[2], q[3]
 	r := [3][3]float64{
@@ -840,4 +840,13 @@ func (d *Doc) checkLights(cs Case, reach map[int]bool, add adder) {
 			add("gltf.Writer.AddLight", clLight, "unplaced", "no node references light %d", l)
 		}
 	}
+}
+
+
+// trsClass: the transform selector as it appears in violation classes (ladder rungs collapse).
+func trsClass(sel string) string {
+	if _, ok := ladderRung(sel); ok {
+		return "value-ladder"
+	}
+	return sel
 }
